@@ -25,6 +25,7 @@ properties! {
     "C04" => c04,
     "C05" => c05,
     "C06" => c06,
+    "C08" => c08,
     "C09" => c09,
     "C11" => c11,
     "C16" => c16,
